@@ -252,6 +252,11 @@ def analyse(chk, job, r, model, base_weights):
             zi = complex(float.fromhex(t[3]), float.fromhex(t[4]))
             if k in oavg and (isbad(zi.real) or abs(zi - oavg[k]) > 1e-9):
                 spec.append("<c^+_%d c_%d> = %r but Tr(rho c^+ c) = %r" % (k[0], k[1], zi, oavg[k]))
+        for t in r.get("impl", "AVGAGAIN"):
+            k = (int(t[1]), int(t[2]))
+            zi = complex(float.fromhex(t[3]), float.fromhex(t[4]))
+            if k in oavg and (isbad(zi.real) or abs(zi - oavg[k]) > 1e-9):
+                spec.append("<c^+_%d c_%d> read from an EnsembleAverage object after a second prepare() = %r but Tr(rho c^+ c) = %r" % (k[0], k[1], zi, oavg[k]))
     elif not cert_ok:
         STATS["certificate_too_large"] += 1
         chk.notes.append("%s: eigen-decomposition certificate %r too large for the oracle comparison" % (tag, r.cert))
